@@ -92,6 +92,16 @@ func (p *pipeline) executeStage(parentStageID string, stage stagepkg.Stage) {
 	stageID := uuid.New().String()
 	p.sm.executeStage(parentStageID, stageID, stage)
 
+	defer func() {
+		// a stage which panics on the current goroutine(planning or executing inline) is registered as pending,
+		// complete it with the error, else the pipeline never completes(or loses the error).
+		if r := recover(); r != nil {
+			err := errorpkg.Error(r)
+			p.logger.Error("execute query stage panic", logger.Error(err), logger.Stack())
+			p.sm.completeStage(stageID, err)
+		}
+	}()
+
 	stage.Execute(stage.Plan(), func() {
 		// after current stage execute completed, then plan next stages
 		nextStages := stage.NextStages()
